@@ -108,6 +108,7 @@ class Prop(PropBase):
         reps = 2 if quick else 14
         scheds = ["sync", "threads"] if quick else ["sync", "threads", "processes"]
         first_proc = True
+        seen_proc = set()
         for op, classes in self.OPS.items():
             for cls in classes:
                 for _ in range(reps):
@@ -129,8 +130,12 @@ class Prop(PropBase):
                         else:
                             chunks.append(list(rng.choice(parts)))
                     sched = rng.choice(scheds)
-                    if quick and first_proc and op == "ufunc_scale":
-                        sched, first_proc = "processes", False
+                    if quick and op in ("ufunc_scale", "time_shift", "coherent", "stft", "rawfft") and cls in ("BasebandSignal", "Signal") \
+                            and op not in seen_proc:
+                        # the multiprocess scheduler pickles every task: once per run for an element-wise op and for each
+                        # FFT-based family
+                        sched = "processes"
+                        seen_proc.add(op)
                     c = {"op": op, "cls": cls, "N": N, "nchan": nchan, "extra": list(extra), "chunks": chunks, "sched": sched,
                          "seed": rng.randrange(10**6), "dtype": rng.choice(["f4", "f8"])}
                     c["args"] = self._args(rng, op, c, shape)
